@@ -25,8 +25,6 @@ CHUNK = 1000
 CORPUS = os.path.join(os.path.dirname(os.path.abspath(__file__)), '..', 'corpus', 'C07')
 M256 = 1 << 256
 
-SIG_STALE = {'site': 'Headers.connect', 'case': 'batch connected onto stale tail left above a shorter fork'}
-SIG_TIP = {'site': 'Headers.repair', 'case': 'tip at start+36k not link-checked'}
 
 
 # ------------------------------------------------------------------------------------------------
@@ -307,11 +305,10 @@ class Monitor:
         self.w = 0                  # end of the most recently connected batch
         self.base = 0               # heights below base were never validated by connect (loaded from disk)
         self.bad = None
-        self.sig = None
 
-    def fail(self, msg, sig=None):
+    def fail(self, msg):
         if self.bad is None:
-            self.bad, self.sig = msg, sig
+            self.bad = msg
 
     def broken_links(self, buf, lo, hi):
         """heights h in (lo, hi) whose prev field does not hash-link to header h-1"""
@@ -331,13 +328,12 @@ class Monitor:
                 self.fail('loaded chain is not a prefix of the stored file')
         # first damaged link the code is supposed to find
         fb = None
-        if start == 0 and whole >= 1 and len(file) % HS and cfg['genesis'] is not None \
-                and dsha(file[:HS]).hex() != cfg['genesis']:
+        if start == 0 and whole >= 1 and cfg['genesis'] is not None and dsha(file[:HS]).hex() != cfg['genesis']:
             fb = 0
         if fb is None:
             bl = self.broken_links(file, start, whole)
             fb = bl[0] if bl else None
-        if not cfg['checkpoints']:
+        if not cfg['checkpoints'] and not (cfg['genesis'] is None and start == 0):
             if fb is None and size != whole:
                 self.fail(f'undamaged file of {whole} headers loaded as {size}')
             if fb is not None and size < max(0, fb - 1):
@@ -345,9 +341,7 @@ class Monitor:
         # the loaded chain above the checkpoint horizon must link
         bl = self.broken_links(io_after, hz, size)
         if bl:
-            h = bl[0]
-            sig = SIG_TIP if (h == size - 1 and (size - 1 - start) % 36 == 0 and size - 1 > start) else None
-            self.fail(f'loaded chain of {size} headers has a broken prev-hash link at height {h}', sig)
+            self.fail(f'loaded chain of {size} headers has a broken prev-hash link at height {bl[0]}')
         self.io, self.size = io_after, size
         self.w = size
         self.base = size
@@ -397,9 +391,8 @@ class Monitor:
             if self.bad is None:
                 r = self.chain_ok(io_after, end)
                 if r is not None:
-                    sig = SIG_STALE if (start > self.w and inv is None) else None
                     self.fail(f'after connect({start}, {ok} headers) the chain [0,{end}) breaks rule {r[1]} at '
-                              f'height {r[0]}', sig)
+                              f'height {r[0]}')
             self.w = end
         else:
             if io_after[:self.w * HS] != before[:self.w * HS]:
@@ -576,8 +569,9 @@ class History:
         self.impl.dispose()
         self.run.case(case, nontrivial=nontrivial and len(self.ops) > 1)
         if self.mon.bad:
-            self.run.violation(case, self.mon.bad, signature=self.mon.sig)
-            self.run.count('monitor:' + ('known-shape' if self.mon.sig else 'violation'))
+            self.run.violation(case, self.mon.bad,
+                               signature={'case_sha1': hashlib.sha1(vlib.canon(case).encode()).hexdigest()})
+            self.run.count('monitor:violation')
             return False
         mod = self.model.call('run', cfg=case['cfg'], file=case['file'], ops=self.ops)
         return self.run.compare('C07.run/' + self.kind, case, self.results, mod)
@@ -1171,7 +1165,7 @@ def main(run):
     for i in range(vlib.scaled(T, 2, 12)):
         gen_checkpoints(run, model, rng, two=bool(i % 2))
 
-    run.partial = ['C07_chain_invariant_partial', 'C07_open_yields_linked_prefix_partial']
+    run.partial = []
     run.supporting = {'miner_hash_attempts': 'see histogram'}
     model.close()
 
